@@ -69,6 +69,15 @@ def routes(tokens, ue):
             return p
         out["join"] = joined
         out["slash"] = slashed
+
+        def joined_over_detours():
+            # one join() call with several parts, among them slash-led ones that replace everything before them - the same
+            # slash-led text more than once, in several places - and finally the tokens one by one
+            p = JSONPointer("/zz/0", unicode_escape=ue)
+            first = "/" + rp.encode_token(tokens[0])
+            return p.join("x", first, "y", "/other", first, *[rp.encode_token(t) for t in tokens[1:]])
+        out["join(several parts, repeated slash-led ones)"] = joined_over_detours
+        out["join(slash-led text twice)"] = lambda: JSONPointer("/q", unicode_escape=ue).join(text, text) if tokens else JSONPointer("", unicode_escape=ue)
     for cname, carrier in (("iter", lambda: iter(list(tokens))), ("generator", lambda: (t for t in tokens)), ("map", lambda: map(str, tokens)), ("tuple", lambda: tuple(tokens)), ("dict-keys", lambda: dict.fromkeys(tokens).keys() if len(set(tokens)) == len(tokens) else list(tokens))):
         out["from_parts(%s)" % cname] = (lambda c=carrier: JSONPointer.from_parts(c(), unicode_escape=ue))
         if not any("%" in t for t in tokens):
